@@ -47,6 +47,9 @@ MCQuick ==
 
 MCQuickFlap == FamFlap({C, WC}, Sco2, Flap2, {F}) \cup FamFlap({C}, Sco2, Flap2, {T})
 
+(* observation: the restore as it was before fix 06befa5 (RestoreKeepsEpisodeStart = FALSE) *)
+MCRestoreObs == FamEmit({C}, Sco2, {2})
+
 MCQuickAll == MCQuick \cup MCQuickFlap
 ASSUME QuickStatic == LevelRuleStatic /\ FlapNoBoundary
 
